@@ -39,7 +39,7 @@ for pid in ids:
     })
 man = {
     "version": 1,
-    "setup_cmd": "make -C /verif build && cd /verif/harness && cp /repo/go.sum . && GOFLAGS=-mod=mod GOPROXY=off GOSUMDB=off GOTOOLCHAIN=local go build -tags verif -o /dev/null ./cmd/vh ./cmd/extractconsts",
+    "setup_cmd": "make -C /verif build && cd /verif/harness && cp /repo/go.sum . && GOFLAGS=-mod=mod GOPROXY=off GOSUMDB=off GOTOOLCHAIN=local go build -tags verif github.com/martian-lang/martian/martian/... github.com/martian-lang/martian/cmd/... ./internal/... ./cmd/extractconsts",
     "hooks": {
         "guard": "verif",
         "enable": "go build -tags verif (add-only files martian/*/verif_export*.go guarded by //go:build verif)",
